@@ -7,16 +7,18 @@ package load
 //
 //   cfg:  window=<ns> buckets=<n> threshold=<n> t0=<ns> disabled=<0/1> group=<0/1>
 //   ops:  t+ <ns>                                     => now=<ns>
-//         allow k=<key> over=<0/1> cpu=<n> p=<id>     => ok|overloaded flying= avg= mp= rt= mf= ot= dr= cpuok=
+//         allow k=<key> over=<0/1> cpu=<n> p=<id>     => ok|overloaded flying= avg= mp= rt= mf= ot= dr= cpuok= nan=
 //         pass <id> | fail <id>                       => flying= avg=  | nopromise | nop
 //
 // `over` scripts the package variable systemOverloadChecker, `cpu` is stored into stat's cpuUsage
 // right before the call (what overloadFactor reads through stat.CpuUsage()); cpuok=0 reports that
-// the background sampler overwrote it meanwhile. Generation (c02Gen) is separate from execution:
+// the background sampler overwrote it meanwhile; nan=1 reports that overloadFactor() is NaN for this threshold and
+// CPU reading (threshold = cpuMax = cpu without the guard of fixes/C02-threshold-at-cpumax-nan.patch). Generation (c02Gen) is separate from execution:
 // the executor is driven by the op text only.
 
 import (
 	"fmt"
+	"math"
 	"math/big"
 	"strings"
 	"sync/atomic"
@@ -91,9 +93,12 @@ func (g *c02G) gap() {
 
 func (g *c02G) cpu() int {
 	r := g.r
-	switch r.Intn(9) {
+	switch r.Intn(10) {
 	case 0:
 		return 0
+	case 9:
+		// readings above cpuMax (the sampler can overshoot): negative numerator
+		return r.Pick(1001, 1010, 1100, g.thr+1)
 	case 1:
 		return g.thr
 	case 2:
@@ -244,7 +249,8 @@ func (g *c02G) double() {
 
 func c02Section(r *verifh.Rng, kind int) verifh.Section {
 	sh := c02Shapes[r.Intn(len(c02Shapes))]
-	thr := r.Pick(0, 100, 500, 900, 900, 999, r.Range(1, 998))
+	// 1000 = cpuMax: overloadFactor divides by zero; above: a negative denominator (reachable through WithCpuThreshold only)
+	thr := r.Pick(0, 100, 500, 900, 900, 999, 1000, 1000, 1001, 1500, r.Range(1, 998), r.Range(1, 998))
 	t0 := int64(r.Pick(1, 1000, 123456789, 999999999, 86400000000000))
 	g := &c02G{r: r, now: t0, t0: t0, interval: sh.window / int64(sh.buckets), size: sh.buckets, thr: thr, keys: 1, lastOver: t0}
 	disabled, group := 0, 0
@@ -410,8 +416,12 @@ func TestVerifC02(t *testing.T) {
 				if as.droppedRecently.True() {
 					dr = 1
 				}
-				return fmt.Sprintf("%s %s mp=%d rt=%s mf=%s ot=%d dr=%d cpuok=%d", head, c02Fields(as), as.maxPass(),
-					c02Rat(as.minRt()), c02Rat(as.maxFlight()), int64(as.overloadTime.Load()), dr, cpuok)
+				nan := 0
+				if math.IsNaN(as.overloadFactor()) {
+					nan = 1
+				}
+				return fmt.Sprintf("%s %s mp=%d rt=%s mf=%s ot=%d dr=%d cpuok=%d nan=%d", head, c02Fields(as), as.maxPass(),
+					c02Rat(as.minRt()), c02Rat(as.maxFlight()), int64(as.overloadTime.Load()), dr, cpuok, nan)
 			case "pass", "fail":
 				pr, ok := proms[op[1]]
 				if !ok {
